@@ -230,15 +230,20 @@ def run(ctx):
     cov["vacuous_subjects"] = s.get("vacuous_subjects", [])
     cov["distinct_nontrivial"] = s.get("distinct_nontrivial", 0)
     cov["exhaustive"] = False
-    cov["rule"] = ("a case = one call of one subject (entry point x configuration: strategy, radix width, thresholds, thread "
-                   "count, buffer size, comparator, cache hierarchy) on one generated input; inputs = shape (all equal, sorted, "
-                   "reversed, random, nearly sorted, concatenated runs) x value domain (few values, medium, values differing only "
-                   "in the highest byte >= 2^31 / 2^63, only in the high word, full range; byte strings: short, 10-byte common "
-                   "prefix, prefix chains, first byte only) x length (0,1,2,3,5,8,15..17,31..33,63,64 fully logged; lengths around "
-                   "every threshold constant 100/256/1000/1024/10000/20000 and up to %s as digests); merges with 0..12 ways incl. "
-                   "empty ways.  Counted as distinct non-trivial: distinct (subject, operation, input) fingerprints with at least "
-                   "2 input elements whose call returned Ok (refusals, panics and crashes are not counted).  evaluations = batch "
-                   "events judged by TLC." % ("1.05 million" if True else ""))
+    cov["rule"] = ("a case = one call of one subject (entry point x configuration: strategy, radix width 1..16, thresholds, thread "
+                   "count, buffer size, comparator, cache hierarchy, element type u8/u16/u32/u64/i32/i64/u128/(u64,u64)/String/Vec<u8>/"
+                   "RadixString/wide structs) on one generated input; inputs = shape (all equal, sorted, reversed, random, nearly sorted, "
+                   "concatenated runs, sorted head + random tail) x value domain (few values, medium, values differing only in the highest "
+                   "byte >= 2^31 / 2^63, only in the high word, full range, values 2^k-1/2^k/2^k+1 for every k, maxima 2^B-1 / 2^B at "
+                   "the digit boundaries B of the radix width, 65535/65536 around the counting-sort bound; byte strings: short, 10-byte and "
+                   "70-byte common prefix, prefix chains, first byte only) x length (0..9, 15..17, 24, 25, 31..33, 63, 64 fully logged; "
+                   "lengths on both sides of every threshold constant 16/32/64/100/256/1000/1024/10000/20000, of the L1/L2/cache-aware "
+                   "windows of the detected cache hierarchy per element size, and up to 1.05 million as digests); merges with 0..12, 17, 65, "
+                   "70 ways: empty, single, all-equal, disjoint (both orders), interleaved runs; set operations with every multiplicity "
+                   "combination 0/1/3 and on both sides of the 1small size-ratio switch; comparison kernels on 0..64 elements incl. "
+                   "i32::MIN/MAX and ties.  Counted as distinct non-trivial: distinct (subject, operation, input) fingerprints with at "
+                   "least 2 input elements whose call returned Ok (refusals, panics and crashes are not counted).  evaluations = batch "
+                   "events judged by TLC.")
     # samples: for a few families the reset event and the first fully logged call with at least 6 input elements
     for fam in ("m-radix", "m-kv", "m-lt", "m-setops", "m-ksets", "m-co"):
         ps = [p for p in files if os.path.basename(p).startswith(fam)]
@@ -264,7 +269,8 @@ def run(ctx):
         "with an expectation",
         "large regime: equality of multisets is decided on a (sum, xor) digest of a 60-bit per-element mix (collision probability "
         "about 2^-60 per comparison); sortedness on the exact count of adjacent inversions",
-        "u32 keys >= 2^31 and all u64 keys are compared limb-wise in TLA+ (spec/lib/Limbs.tla), byte strings lexicographically",
+        "u32 keys >= 2^31 and all u64 keys are compared limb-wise in TLA+ (spec/lib/Limbs.tla), byte strings lexicographically; i64 is "
+        "logged in offset binary (x XOR 2^63, order preserving), u128 and (u64,u64) as 16 big-endian bytes",
         "hardware paths: whatever the host CPU selects at run time (AVX2/BMI2 present here); scalar fall-backs are reached through "
         "the use_simd / use_avx2 configuration switches only",
         "crashes are contained: jobs run in child processes under RLIMIT_AS = 6 GiB; a child killed by a signal is reported as a "
